@@ -2,7 +2,7 @@ PROP = dict(
     harness="c05", level="exploration",
     quick=dict(cases=24000, max_size=60, workers=16),
     thorough=dict(cases=600000, max_size=100, workers=16, timeout=7200),
-    rule=("a case is one Compiler program (decoded from integers into a tree of straight-line ops / diamonds / counted loops / "
+    rule=("Session 2: call ops carry 48 generated values so that all ten arguments vary (before, every argument from the fifth on was Imm(1)); immediates that fit uint32 but not int32, preferentially at stack positions. a case is one Compiler program (decoded from integers into a tree of straight-line ops / diamonds / counted loops / "
           "two-entry cycles / annotated jump tables / multi-entry dispatches (2..6 annotated indirect jumps over ONE target set: two entry "
           "arms plus re-dispatching cases with a budget, label lists permuted per jump or one shared JumpAnnotation object) / early returns "
           "over 1..200 GP values of 32/64 bits, 0..40 xmm values, 0..24 ymm (zmm in AVX-512 mode on an AVX-512 host) values with cross-lane "
